@@ -67,6 +67,9 @@ fn u2_multiset(r: &unreal2::Response) -> String {
 }
 
 /// HashMap debug output depends on iteration order: render maps sorted
+pub fn render_valve(r: &valve::Response) -> String { valve_render(r) }
+pub fn render_u2(r: &unreal2::Response) -> String { u2_render(r) }
+
 fn valve_render(r: &valve::Response) -> String {
     let rules: Option<Vec<(&String, &String)>> = r.rules.as_ref().map(|m| {
         let mut v: Vec<_> = m.iter().collect();
